@@ -305,7 +305,7 @@ EXTRA_RULE = {
  "C06": "adds whose data preparation fails after the early checks passed (unsupported selector combination, ADPCM on odd lengths), as new names and as replaces.",
  "C07": "reported counts against the harness' own bookkeeping (listed entries, entries the options exclude); fixed witness of D2 through rebuild.",
  "C09": "requests of 5001/5003/5007 names (own splitting path) in the quick tier; the archive at the same path replaced and extracted again in the same process through every parallel entry point.",
- "C10": "every protected archive also verified behind a 512- and a 1536-byte prefix; an empty and a one-byte file in every protected archive.",
+ "C10": "every protected archive also verified behind a 512- and a 1536-byte prefix; an empty and a one-byte file in every protected archive; an archive with full attributes after an in-place add (MutableArchive): untouched and added files verify, altered bytes of untouched files are detected.",
  "C11": "traversal names that share a leaf name with an ordinary entry (flattened extraction meets the same base name again); directories followed by more '..' than directories.",
  "C13": "textures with and without file names, events with per-animation ranges, cameras with any subset of position/target/roll tracks; the relocation correspondence also for the event, attachment and camera sections.",
  "C14": "every combination of flight bounds / water / texture flags per version (version detection and chunk selection depend on which markers occur together).",
